@@ -389,6 +389,18 @@ def unseeded_variants(rec, seed):
       n = e.notes['n']
       psize = (n.bit_length() + 1) // 2
       cands = e.memo.get(('storage', psize), [])
+      # the list is asked for the prime size of this modulus, (bits + 1) // 2
+      asked = [key[1] for key in e.memo
+               if isinstance(key, tuple) and len(key) == 2 and
+               key[0] == 'storage' and isinstance(key[1], int)]
+      if asked == [psize]:
+        rec.obligation('proved')
+      else:
+        r, m = e.feasible()
+        if r == 'sat':
+          cexs.append(inputs_of(e, m))
+        elif r != 'unsat':
+          rec.inconclusive('size path undecided')
       msb1 = 2**(psize - 1)
       msb11 = msb1 | 2**(psize - 2)
       for c in cands:
